@@ -646,3 +646,4 @@ m("x8-sweep-word-size-test-negated", "C06", VM, "        if size_of::<usize>() >
 m("x8-sweep-word-size-test-ge-16", "C06", VM, "        if size_of::<usize>() > 4 {\n            copy_aligned_slice(8);", "        if size_of::<usize>() >= 16 {\n            copy_aligned_slice(8);", "R6.4.descending_widths")
 m("x8-sweep-xen-default-prot-overrides", "C15", XN, "        if range.prot.is_none() {", "        if !(range.prot.is_none()) {", "R15.3.xen_default_only_when_none")
 m("x8-sweep-xen-default-flags-always", "C15", XN, "            None => range.flags = Some(libc::MAP_NORESERVE | libc::MAP_SHARED),\n        }", "            None => {}\n        }\n        range.flags = Some(libc::MAP_NORESERVE | libc::MAP_SHARED);", "R15.3.xen_default_only_when_none")
+m("x8-get-unwrap-off-by-one", "C07", MM, "if self.regions.get(region_index).unwrap().mapping.size() as GuestUsize == size {", "if self.regions.get(region_index + 1).unwrap().mapping.size() as GuestUsize == size {", "?")
